@@ -477,6 +477,9 @@ func unmarshal(m *Message, f reflect.Value, avps []*AVP) {
 		// Test for AVP.Data (e.g. format.UTF8String, string)
 		dv := reflect.ValueOf(avps[0].Data)
 		if dv.Type().ConvertibleTo(fieldType) {
+			if fieldType.Kind() == reflect.Array && dv.Kind() == reflect.Slice && dv.Len() < fieldType.Len() {
+				break // the value is too short for the array: Convert would panic
+			}
 			f.Set(dv.Convert(fieldType))
 		}
 	}
